@@ -22,4 +22,9 @@ mcSetup == <<
   [a |-> "dlv", x |-> "c", k |-> 2],
   [a |-> "dlv", x |-> "s", k |-> 1] >>
 mcQSids == <<1, 2, 3>>
+mcCfgC == DefaultCfg
+mcCfgS == DefaultCfg
+mcMaxClosed == 2
+mcMaxChan == 3
+mcMaxK == 2
 =============================================================================
